@@ -167,7 +167,7 @@ func (t *Tokenizer) tokenizeBuffer(buf []byte, last bool) {
 			t.line++
 			t.noff = off
 			for i, b = range buf[off+1:] {
-				if spaceMap[b] != skipChar {
+				if t.mode[b] != skipChar {
 					break
 				}
 			}
@@ -374,7 +374,7 @@ func (t *Tokenizer) tokenizeBuffer(buf []byte, last bool) {
 			t.line++
 			t.noff = off
 			for i, b = range buf[off+1:] {
-				if spaceMap[b] != skipChar {
+				if t.mode[b] != skipChar {
 					break
 				}
 			}
@@ -394,7 +394,7 @@ func (t *Tokenizer) tokenizeBuffer(buf []byte, last bool) {
 			t.noff = off
 			t.mode = valueMap
 			for i, b = range buf[off+1:] {
-				if spaceMap[b] != skipChar {
+				if t.mode[b] != skipChar {
 					break
 				}
 			}
